@@ -183,6 +183,28 @@ def h_rebalance(run, cfg):
             run.check_near(c.position, 0.0, 1e-9, 'untargeted-closed', name)
 
 
+def h_rebalance_direct(run, cfg):
+    """two operations on one date with no read in between: a trade, then rebalance(w, child, base=N): the child ends at w*N of notional"""
+    w = build(run, cfg)
+    B, s, dts = w['B'], w['s'], w['dts']
+    s.transact(run.real('qa', -300, 300), 'a')
+    s.transact(run.real('qb', -300, 300), 'b')
+    s.update(dts[0])
+    s.update(dts[1])
+    N = cfg['notional']
+    child = cfg['child']
+    other = 'b' if child == 'a' else 'a'
+    wt = cfg['weight']
+    try:
+        s.transact(run.real('q2', -200, 200), other)      # marks the tree stale; no property is read before the rebalance
+        s.transact(run.real('q3', -200, 200), child)
+        s.rebalance(wt, child, base=N)
+        s.update(dts[1])
+    except Exception as e:
+        run.end('raised')
+    run.check_near(s[child].position, wt * N, EPS_MONEY * 10, 'rebalance-after-same-date-trade-hits-target', '%s target %r' % (child, wt * N))
+
+
 def h_renorm(run, cfg):
     w = build(run, cfg)
     B, s, dts, nd = w['B'], w['s'], w['dts'], w['nd']
@@ -208,7 +230,7 @@ def h_renorm(run, cfg):
         run.check_near(P.iloc[di], 100.0 * (1.0 + acc), EPS_P * 100, 'renormalized-price-formula', 'date %d' % di)
 
 
-HARNESSES = {'history': h_history, 'rebalance': h_rebalance, 'renorm': h_renorm}
+HARNESSES = {'history': h_history, 'rebalance': h_rebalance, 'renorm': h_renorm, 'rebalance_direct': h_rebalance_direct}
 WITNESS_CAP = {'quick': 120, 'thorough': 300}
 
 
@@ -226,8 +248,11 @@ def plan(tier):
     for costs in ('both', 'long', 'short'):
         tasks.append(dict(harness='history', cfg=dict(costs=costs, spread=1, fee=1, nd=4 if quick else 5, transposed=1, deg_limit=4), opts=opts))
     for tg in ([['a', 0.5], ['b', 0.5]], [['a', -0.25], ['b', 0.75], ['d', 0.25]], [['b', 1.0]], [['a', 0.5], ['d', -0.125]]):
-        for N in (1000.0, 250.0):
+        for N in (1000.0, 250.0, 0.0):
             tasks.append(dict(harness='rebalance', cfg=dict(costs='both', spread=0, fee=0, nd=3, targets=tg, notional=N), opts=opts))
+    for child in ('a', 'b'):
+        for wt in (0.5, -0.25):
+            tasks.append(dict(harness='rebalance_direct', cfg=dict(costs='both', spread=0, fee=0, nd=3, child=child, weight=wt, notional=800.0), opts=opts))
     for v in (1000.0, 62.5):
         tasks.append(dict(harness='renorm', cfg=dict(costs='both', spread=1, fee=0, nd=4, norm=v), opts=opts))
     return tasks
